@@ -227,7 +227,7 @@ func checkConnectives(r *Run, prog *Program, a *Anchors, pfx string) {
 				return prog.InModule(callee) && callee != fn && callee != a.MatchEval && callee != a.CollEval
 			}
 			ps.Model = func(ev *Event) *Sym {
-				if ev.Callee == nil || len(ev.Args) == 0 || !prog.InModule(ev.Callee) || !isBoolErr(ev.Callee.Signature) {
+				if ev.Callee == nil || len(ev.Args) == 0 || !prog.InModule(ev.Callee) || !isVerdict(ev.Callee.Signature) {
 					return nil
 				}
 				f, ok := "", false
@@ -249,7 +249,7 @@ func checkConnectives(r *Run, prog *Program, a *Anchors, pfx string) {
 						} else {
 							e = &Sym{K: sConst, C: nil}
 						}
-						return &Sym{K: sTuple, Kids: []*Sym{{K: sConst, C: constant.MakeBool(as[i].boolVal())}, e}}
+						return verdictModel(ev.Callee.Signature, &Sym{K: sConst, C: constant.MakeBool(as[i].boolVal())}, e)
 					}
 				}
 				return nil
